@@ -20,7 +20,7 @@ func init() {
 		Rule: "cases: seeded histories of 1-30 operations from {Append, Prepend, Replace, Clear, All, caller overwrites an earlier argument slice in place, caller appends into the " +
 			"spare capacity of an earlier argument, caller writes through the slice returned by All, Append/Prepend/Replace whose argument is a sub-slice of All(), caller keeps the result of All() and later passes it back as an argument} on one dst.Decorations; arguments are sub-slices of a shared arena with " +
 			"seeded spare capacity (also nil and empty variadics). A []string reference model is stepped in lock-step; the arena is snapshotted around every call (whole " +
-			"arg[:cap(arg)]); at the end the list is attached to a Start/End/named point of a parsed statement, printed, and the comment stream of the output is compared with " +
+			"arg[:cap(arg)]); at the end (every 10th history) the list is attached to one of 18 decoration points of a parsed file (statement, value / type / import spec, field, function declaration, call, case clause), printed, and the comment stream of the output is compared with " +
 			"All(). distinct_nontrivial = distinct (operation-kind sequence) hashes of length >= 3.",
 		Floor: 5000,
 		Run:   runC19,
@@ -265,8 +265,8 @@ func c19History(c *fw.Ctx, id string, i int) {
 	if len(kinds) >= 3 {
 		c.Nontrivial(strings.Join(kinds, ","))
 	}
-	if i%50 == 0 {
-		c19Render(c, id, r.Intn(3), d, fail)
+	if i%10 == 0 {
+		c19Render(c, id, r.Intn(1000), d, fail)
 	}
 	if i < 40 {
 		c.Sample(map[string]interface{}{"case": id, "ops": kinds, "final": model})
@@ -285,28 +285,40 @@ func sameList(a, b []string) bool {
 	return true
 }
 
-// c19Render attaches the list to a point of a statement and checks the printed comments.
+// c19Render attaches the list to a decoration point of a parsed file and checks the printed comments.
 func c19Render(c *fw.Ctx, id string, where int, d dst.Decorations, fail func(rule, detail string)) {
-	f, err := decorator.Parse("package p\n\nfunc f() {\n\ta = b\n}\n")
+	f, err := decorator.Parse("package p\n\nimport \"fmt\"\n\nvar v = 1\n\ntype T struct {\n\tF int\n}\n\nfunc f() {\n\ta = b\n\tg(x, y)\n\tswitch {\n\tcase a:\n\t}\n}\n")
 	if err != nil {
 		return
 	}
-	st := f.Decls[0].(*dst.FuncDecl).Body.List[0].(*dst.AssignStmt)
-	point := ""
-	switch where {
-	case 0:
-		st.Decs.Start = d
-		point = "Start"
-	case 1:
-		st.Decs.End = d
-		point = "End"
-	default:
-		st.Decs.Tok = d
-		point = "Tok"
+	imp := f.Decls[0].(*dst.GenDecl).Specs[0].(*dst.ImportSpec)
+	vs := f.Decls[1].(*dst.GenDecl).Specs[0].(*dst.ValueSpec)
+	ts := f.Decls[2].(*dst.GenDecl).Specs[0].(*dst.TypeSpec)
+	fld := ts.Type.(*dst.StructType).Fields.List[0]
+	fn := f.Decls[3].(*dst.FuncDecl)
+	st := fn.Body.List[0].(*dst.AssignStmt)
+	call := fn.Body.List[1].(*dst.ExprStmt).X.(*dst.CallExpr)
+	cc := fn.Body.List[2].(*dst.SwitchStmt).Body.List[0].(*dst.CaseClause)
+	targets := []struct {
+		name string
+		at   *dst.Decorations
+	}{
+		{"AssignStmt.Start", &st.Decs.Start}, {"AssignStmt.End", &st.Decs.End}, {"AssignStmt.Tok", &st.Decs.Tok},
+		{"ValueSpec.End", &vs.Decs.End}, {"ValueSpec.Start", &vs.Decs.Start}, {"ValueSpec.Assign", &vs.Decs.Assign},
+		{"TypeSpec.End", &ts.Decs.End}, {"TypeSpec.Name", &ts.Decs.Name},
+		{"Field.End", &fld.Decs.End}, {"Field.Start", &fld.Decs.Start},
+		{"ImportSpec.End", &imp.Decs.End},
+		{"FuncDecl.Start", &fn.Decs.Start}, {"FuncDecl.End", &fn.Decs.End},
+		{"CallExpr.Lparen", &call.Decs.Lparen}, {"Ident(arg).End", &call.Args[0].(*dst.Ident).Decs.End},
+		{"CaseClause.Colon", &cc.Decs.Colon}, {"CaseClause.Case", &cc.Decs.Case},
+		{"GenDecl.Start", &f.Decls[1].(*dst.GenDecl).Decs.Start},
 	}
+	t := targets[where%len(targets)]
+	*t.at = d
+	point := t.name
 	var buf bytes.Buffer
 	if err := decorator.Fprint(&buf, f); err != nil {
-		fail("render-error", err.Error())
+		fail("render-error", point+": "+err.Error())
 		return
 	}
 	toks, _ := obs.Scan(buf.Bytes())
@@ -318,7 +330,7 @@ func c19Render(c *fw.Ctx, id string, where int, d dst.Decorations, fail func(rul
 		}
 	}
 	if !sameList(got, want) {
-		fail("render-mismatch", fmt.Sprintf("point %s: printed comments %v, All() %v\n%s", point, got, d.All(), buf.String()))
+		fail("render-mismatch", fmt.Sprintf("point %s: printed comments %v, All() %v\n%s", point, got, want, buf.String()))
 	}
 	c.Count("rendered", 1)
 	c.Observe("render_points", point)
